@@ -539,6 +539,40 @@ def rule_pp_uaf(chk, prog, tier):
     r.exhaustive = False
 
 
+# ------------------------------------------------------------------ C19.m growable arrays
+
+def rule_arrayadd(chk, prog, tier):
+    r = chk.rule('C19.m', 'arrayadd(a, n) returns n writable bytes at the old end of the array inside its allocation: after the call cap >= old len + n, len = old len + n, the result is val + old len, and the buffer is reallocated exactly when the old capacity was too small',
+                 floor=300, oracle='util.h array contract (every append of the compiler goes through it)')
+    fn = prog.require_func('arrayadd', 'util.c')
+    LENS = [0, 1, 8, 255, 256, 257, 511, 512, 1000, 4096]
+    NS = [1, 8, 24, 255, 256, 257, 500, 1900, 70000]
+    for ln in LENS:
+        for capk in ('len', 'len+1', 'len+8', 'pow2', '2pow2', 'zero'):
+            cap = {'len': ln, 'len+1': ln + 1, 'len+8': ln + 8, 'pow2': max(256, 1 << max(ln, 1).bit_length()), '2pow2': 2 * max(256, 1 << max(ln, 1).bit_length()), 'zero': 0}[capk]
+            if cap < ln: continue
+            for n in NS:
+                def runner(it):
+                    a = Obj('array', 'local'); old = Obj('buf0', 'heap'); old.bytebuf = True
+                    a.f.update({('val',): Ptr(old, (0,)) if cap else None, ('len',): ln, ('cap',): cap})
+                    re_ = {}
+                    def realloc(i2, args, e):
+                        nb = Obj('buf1', 'heap'); nb.bytebuf = True; re_['size'] = args[1]; re_['old'] = args[0]
+                        return Ptr(nb, (0,))
+                    it.models.update({'realloc': realloc, 'fatal': lambda i2, args, e: (_ for _ in ()).throw(Terminal('fatal', 'x'))})
+                    res = it.call(fn, [Ptr(a, ()), n])
+                    v = a.f[('val',)]
+                    return a.f[('len',)], a.f[('cap',)], re_.get('size'), (isinstance(res, Ptr) and isinstance(v, Ptr) and res.obj is v.obj and res.path[-1] == ln)
+                runs = explore(prog, runner, {}, max_runs=4, on_unsupported='keep')
+                if len(runs) != 1 or runs[0].outcome != 'return':
+                    raise AnalysisBroken('arrayadd(len=%d, cap=%d, n=%d): %s %s' % (ln, cap, n, runs[0].outcome if runs else '?', runs[0].detail if runs else ''))
+                nl, nc, rsz, okptr = runs[0].value
+                grow = cap - ln < n
+                ok = nl == ln + n and nc >= ln + n and okptr and ((rsz == nc) if grow else (rsz is None and nc == cap))
+                r.instance(ok, 'arrayadd:len=%d,cap=%d,n=%d' % (ln, cap, n), 'util.c:%s' % fn.get('line'), 'after the call len=%s cap=%s realloc size=%s, pointer at old end: %s; needs cap >= %d' % (nl, nc, rsz, okptr, ln + n))
+    r.exhaustive = False
+
+
 def run(chk, tier):
     progs = facts.programs()
     prog = progs['cproc-qbe']
@@ -553,6 +587,7 @@ def run(chk, tier):
     chk.guard('C19.j', lambda: rule_pp_eof(chk, prog, tier))
     chk.guard('C19.k', lambda: rule_tokendesc(chk, prog, tier))
     chk.guard('C19.l', lambda: rule_pp_uaf(chk, prog, tier))
+    chk.guard('C19.m', lambda: rule_arrayadd(chk, prog, tier))
     from props import c14, c04
     chk.guard('C14.a', lambda: c14.rule_escapes(chk, prog, tier))       # the scanner invariant decodechar's assertions rely on
     chk.guard('C04.c', lambda: c04.rule_traps(chk, prog, tier))         # no trapping host arithmetic in the folder
